@@ -2,6 +2,7 @@ package main
 
 import (
 	"fmt"
+	"go/token"
 	"go/types"
 	"strings"
 
@@ -116,6 +117,7 @@ func c05(c *Ctx) {
 	ownWrite := whenCond(false, func(a string) bool { return strings.HasPrefix(a, "(const:0 < call:(embedded/store.ValueRef).Tx") })
 
 	// ---- C05.1 every observation is recorded --------------------------------------------------------
+	c05RecordedKeysAreCopies(c)
 	r := "C05.1/reads-recorded"
 	c.recordingRule(r, c.mustFn(r, otxT+"GetWithFilters"), "snap.GetWithFilters", callTo(snapT+"GetWithFilters"), "mvccReadSet.expectedGets", "ErrKeyNotFound", ownWrite)
 	c.recordingRule(r, c.mustFn(r, otxT+"GetWithPrefixAndFilters"), "snap.GetWithPrefixAndFilters", callTo(snapT+"GetWithPrefixAndFilters"), "mvccReadSet.expectedGetsWithPrefix", "ErrKeyNotFound", ownWrite)
@@ -335,6 +337,40 @@ func c05(c *Ctx) {
 			})
 			c.check(dep, r, fmt.Sprintf("%s:wait-target-is-precommit-frontier#%d", fnName(f), i), c.pos(in.Pos()),
 				"waits for indexing up to the precommitted frontier read after the lock", "validation waits for indexing up to "+desc(arg)+", not the precommit frontier read inside the critical section")
+			// ... and to nothing lower: every value the target can take is the frontier itself (or, in unsafe-MVCC
+			// mode, the mandatory-MVCC floor); a target lowered by a min() with another quantity validates on a stale index
+			var bad []string
+			seen := map[ssa.Value]bool{}
+			var leaves func(v ssa.Value)
+			leaves = func(v ssa.Value) {
+				if seen[v] {
+					return
+				}
+				seen[v] = true
+				switch x := v.(type) {
+				case *ssa.Phi:
+					for _, e := range x.Edges {
+						leaves(e)
+					}
+					return
+				case *ssa.Extract:
+					if cl, ok := x.Tuple.(*ssa.Call); ok && calleeName(&cl.Call) == storeT+"precommittedAlh" && x.Index == 0 {
+						return
+					}
+				case *ssa.Call:
+					if calleeName(&x.Call) == storeT+"LastPrecommittedTxID" {
+						return
+					}
+				case *ssa.UnOp:
+					if fl, _ := fieldOf(x.X); x.Op == token.MUL && fl == "ImmuStore.mandatoryMVCCUpToTxID" {
+						return
+					}
+				}
+				bad = append(bad, desc(v))
+			}
+			leaves(arg)
+			c.check(len(bad) == 0, r, fmt.Sprintf("%s:wait-target-not-lowered#%d", fnName(f), i), c.pos(in.Pos()),
+				"every value of the wait target is the precommit frontier (or the mandatory-MVCC floor in unsafe mode)", "the indexing wait before validation can be for "+strings.Join(bad, ", ")+": transactions precommitted before this one may be missing from the index the reads are validated against")
 		}
 	}
 
@@ -420,6 +456,84 @@ func (c *Ctx) fieldsRead(rule string, t types.Type, fns []*ssa.Function, exempt 
 
 // c05OwnWrites: OngoingTx.set records the latest EntrySpec under every mapped (index) key of the write, so that
 // reads of the transaction resolve to its own latest write; the main key always ends up in entries/transientEntries.
+// c05RecordedKeysAreCopies: what the read-set records is replayed at commit time, possibly long after the read;
+// every key / prefix / bound kept in a record is a private copy (store.cp), never the caller's slice.
+func c05RecordedKeysAreCopies(c *Ctx) {
+	r := "C05.1/recorded-keys-are-copies"
+	recs := map[string]bool{"expectedGet": true, "expectedGetWithPrefix": true, "expectedRead": true, "expectedPrefixFingerprint": true}
+	isCp := func(v ssa.Value) bool {
+		if cl, ok := v.(*ssa.Call); ok && calleeName(&cl.Call) == "embedded/store.cp" {
+			return true
+		}
+		if k, ok := v.(*ssa.Const); ok && k.IsNil() {
+			return true
+		}
+		return false
+	}
+	n := 0
+	for _, fn := range c.allFns {
+		if !fnInPkgs(fn, []string{"embedded/store"}) {
+			continue
+		}
+		per := map[string]int{}
+		allInstrs(fn, false, func(in ssa.Instruction) {
+			st, ok := in.(*ssa.Store)
+			if !ok {
+				return
+			}
+			fa, ok := st.Addr.(*ssa.FieldAddr)
+			if !ok {
+				return
+			}
+			sn := structName(fa.X.Type())
+			fname := fieldName(fa.X.Type(), fa.Field)
+			if recs[sn] && isByteSlice(st.Val.Type()) {
+				n++
+				per[fname]++
+				c.check(isCp(st.Val), r, fmt.Sprintf("%s:%s#%d", fnName(fn), fname, per[fname]), c.pos(st.Pos()), "stored value is cp(...)",
+					"a read-set record keeps "+desc(st.Val)+" as is: if the caller reuses that buffer before commit, validation checks something else than what was read")
+			}
+			if sn == "expectedReader" && fname == "spec" {
+				// the spec is stored as a whole: each of its byte-slice fields must have been replaced by a copy first
+				n++
+				ld, ok := st.Val.(*ssa.UnOp)
+				var src ssa.Value
+				if ok && ld.Op == token.MUL {
+					src = ld.X
+				}
+				for _, want := range []string{"SeekKey", "EndKey", "Prefix"} {
+					okc := false
+					if src != nil {
+						for _, ref := range *src.Referrers() {
+							if sfa, ok := ref.(*ssa.FieldAddr); ok && fieldName(sfa.X.Type(), sfa.Field) == want {
+								for _, r2 := range *sfa.Referrers() {
+									if s2, ok := r2.(*ssa.Store); ok && s2.Addr == sfa && isCp(s2.Val) && instrDominates(s2, st) {
+										okc = true
+									}
+								}
+							}
+						}
+					}
+					c.check(okc, r, fmt.Sprintf("%s:spec.%s", fnName(fn), want), c.pos(st.Pos()), "spec."+want+" is replaced by cp(...) before the spec is recorded",
+						"the key reader spec is recorded with the caller's "+want+" slice")
+				}
+			}
+		})
+	}
+	if n < 8 {
+		c.undecided(r, "floor", fmt.Sprintf("%d key fields of read-set records found (10 confirmed by hand)", n))
+	}
+}
+
+func isByteSlice(t types.Type) bool {
+	sl, ok := t.Underlying().(*types.Slice)
+	if !ok {
+		return false
+	}
+	b, ok := sl.Elem().Underlying().(*types.Basic)
+	return ok && b.Kind() == types.Byte
+}
+
 func c05OwnWrites(c *Ctx, r string) {
 	f := c.mustFn(r, otxT+"set")
 	if f == nil {
